@@ -248,3 +248,65 @@ def equal(ta, tb, rules_terms):
         return not d
     except (TooBig, RecursionError):
         return False
+
+
+def difference(ta, tb, rules_terms):
+    """(normal form of ta - tb, rules) or None when it cannot be computed"""
+    try:
+        opaque = {}
+        rules = build_rules(rules_terms, opaque)
+        d = add(from_term(ta, opaque), from_term(tb, opaque), -1)
+        for vs, rp in opaque.get("__dyn__", []):
+            if len(set(vs)) == len(vs):
+                rules[vs] = reduce(rp, rules)
+        return reduce(d, rules), rules
+    except (TooBig, RecursionError):
+        return None
+
+
+def to_term(p):
+    t = z3.RealVal(0)
+    for m, c in p.items():
+        mt = z3.RealVal(c)
+        for v, e in m:
+            x = z3.Real(v)
+            for _ in range(e):
+                mt = mt * x
+        t = t + mt
+    return t
+
+
+def nonzero_witness(d, rules, timeout_ms=4000, max_rules=40):
+    """a model of the relations touching d in which d != 0, or None"""
+    names = set(v for m in d for v, _ in m)
+    cons = []
+    seen = set()
+    frontier = set(names)
+    while frontier and len(cons) < max_rules:
+        v = frontier.pop()
+        seen.add(v)
+        for key, r in rules.items():
+            if isinstance(key, tuple):
+                if v in key and key not in seen:
+                    seen.add(key)
+                    lhs = z3.RealVal(1)
+                    for k in key:
+                        lhs = lhs * z3.Real(k)
+                    cons.append(lhs == to_term(r))
+                    frontier |= (set(key) | set(x for m in r for x, _ in m)) - seen
+            elif key == v:
+                pw, rp = r
+                lhs = z3.RealVal(1)
+                for _ in range(pw):
+                    lhs = lhs * z3.Real(v)
+                cons.append(lhs == to_term(rp))
+                frontier |= set(x for m in rp for x, _ in m) - seen
+    s = z3.Solver()
+    s.set("timeout", timeout_ms)
+    for c in cons:
+        s.add(c)
+    s.add(to_term(d) != 0)
+    if str(s.check()) == "sat":
+        mm = s.model()
+        return {dd.name(): mm[dd] for dd in mm.decls() if dd.arity() == 0}
+    return None
